@@ -2,7 +2,7 @@
 # confirm_all.sh: every seeded change of every round against its property's check (verdict only); prints the ones NOT caught
 cd /verif
 git -C /repo diff --quiet || { echo "/repo has local changes"; exit 2; }
-for d in seeded seeded2 seeded3 seeded4 seeded5 seeded6 seeded7 seeded8; do for i in $(seq -w 1 20); do
+for d in seeded seeded2 seeded3 seeded4 seeded5 seeded6 seeded7 seeded8 seeded9; do for i in $(seq -w 1 20); do
   p=$d/C$i/patch.diff; [ -f $p ] || continue
   git -C /repo apply $(readlink -f $p) || { echo "$d/C$i: patch does not apply"; continue; }
   out=$(VERIF_FAST=1 timeout 1500 ./check C$i --tier quick 2>&1); 
